@@ -86,7 +86,7 @@ def engine_configs(tier, seed):
                  perturb=True, traceLimit=400000)
         # datagrams larger than the slab's RX buffer in the UDP load (kind "trunc" of UdpJob.tla), whoever runs the driver
         c["oversize"] = True
-        # bursts holding a destination the kernel refuses (batched send only): after the traced load
+        # bursts holding a destination the kernel refuses (a raw-socket datagram with a non-loopback source address sent to the loopback listener; batched send only): after the traced load
         c["poison"] = (60 if not thorough else 400) if c["mode"] == "batch" else 0
     return cfgs
 
